@@ -3,7 +3,7 @@
 # the patch applies to a clean checkout, the suite still passes (84), the demo fails with and passes without.
 set -u
 id=$1
-out=/tmp/mut2/${id}_out
+out=${MUTDIR:-/tmp/mut2}/${id}_out
 wt=/tmp/conf_$id
 rm -rf $wt; git -C /repo worktree prune
 git -C /repo worktree add -q --detach $wt HEAD || exit 2
@@ -13,7 +13,7 @@ git apply $out/patch.diff
 files=$(git diff --name-only | tr '\n' ' ')
 cp $out/seeded_demo.rs epserde/tests/seeded_demo.rs
 if echo "$files" | grep -q epserde-derive; then printf '\n[patch.crates-io]\nepserde-derive = { path = "epserde-derive" }\n' >> Cargo.toml; fi
-export CARGO_NET_OFFLINE=true CARGO_TARGET_DIR=/tmp/mut2/${id}_target
+export CARGO_NET_OFFLINE=true CARGO_TARGET_DIR=${MUTDIR:-/tmp/mut2}/${id}_target
 res=$(cargo test --workspace --no-fail-fast --offline 2>&1 | grep -E "^test result" | awk '{p+=$4; f+=$6} END {print p" passed "f" failed"}')
 git checkout -q -- epserde/src epserde-derive/src
 res2=$(cargo test --offline -p epserde --test seeded_demo 2>&1 | grep -E "^test result" | awk '{p+=$4; f+=$6} END {print p" passed "f" failed"}')
